@@ -449,6 +449,227 @@ fn mode_rescore(r: &mut StdRng, scn: usize, n_req: usize, out: &mut Vec<Value>) 
   Ok(finish_scn(out, scn, "rescore", cx, searches))
 }
 
+// ------------------------------------------------------------------------------------------------
+// C21: highlight fragments and snippets
+// ------------------------------------------------------------------------------------------------
+
+const PRE_CP: u32 = 0xE000;
+const POST_CP: u32 = 0xE001;
+
+fn cps(s: &str) -> Vec<u32> {
+  s.chars().map(|c| c as u32).collect()
+}
+
+/// Code points of a fragment with the request's tags replaced by the marker code points. With
+/// pre == post (legacy snippet "**") occurrences alternate.
+fn marked(s: &str, pre: &str, post: &str) -> Vec<u32> {
+  let mut out = Vec::new();
+  let mut i = 0;
+  let mut open = false;
+  while i < s.len() {
+    let rest = &s[i..];
+    if !pre.is_empty() && rest.starts_with(pre) && (pre != post || !open) {
+      out.push(PRE_CP);
+      open = true;
+      i += pre.len();
+    } else if !post.is_empty() && rest.starts_with(post) {
+      out.push(POST_CP);
+      open = false;
+      i += post.len();
+    } else {
+      let c = rest.chars().next().unwrap();
+      out.push(c as u32);
+      i += c.len_utf8();
+    }
+  }
+  out
+}
+
+const H_ASCII: [&str; 8] = ["rust", "go", "fast", "search", "Zig", "RUST", "lang", "x"];
+const H_LATIN: [&str; 7] = ["café", "über", "naïve", "Ñandú", "élan", "Ärger", "señor"];
+const H_CJK: [&str; 6] = ["漢字", "日本語", "検索", "東京", "語", "ひらがな"];
+const H_EMOJI: [&str; 4] = ["😀", "🎉", "🚀", "😀😀"];
+const H_SEPS: [&str; 9] = [" ", " ", ", ", " — ", "。", " · ", "… ", "¡", "、"];
+
+fn unicode_text(r: &mut StdRng, n_words: usize) -> String {
+  let mut out = String::new();
+  if chance(r, 1, 4) {
+    out.push_str(*pick(r, &H_EMOJI));
+    out.push(' ');
+  }
+  for i in 0..n_words {
+    if i > 0 {
+      out.push_str(*pick(r, &H_SEPS));
+    }
+    let w = match r.gen_range(0..10) {
+      0..=2 => *pick(r, &H_ASCII),
+      3..=5 => *pick(r, &H_LATIN),
+      6..=8 => *pick(r, &H_CJK),
+      _ => *pick(r, &H_EMOJI),
+    };
+    out.push_str(w);
+  }
+  out
+}
+
+fn highlight_schema(r: &mut StdRng) -> Value {
+  let mut k = Knobs::default();
+  k.nested = false;
+  k.analyzers = vec!["default", "default", "uni", "ws"];
+  make_schema(r, &k)
+}
+
+fn alnum_words(t: &str) -> Vec<String> {
+  t.split(|c: char| !c.is_alphanumeric()).filter(|w| !w.is_empty()).map(|w| w.to_string()).collect()
+}
+
+struct HlCfg {
+  field: String,
+  pre: String,
+  post: String,
+  fsize: usize,
+  nfrag: usize,
+  legacy: bool,
+}
+
+/// One highlight check: the request as configured plus the reference request whose fragment is
+/// the whole text (fragment_size larger than any text), which shows the engine's own matches.
+fn highlight_event(cx: &mut Ctx, q: &Q, h: &HlCfg, note: &str) -> Value {
+  let limit = cx.n_slots + 5;
+  let mut req = base_request(q, None, limit, "bm25");
+  if h.legacy {
+    req["highlight_field"] = json!(h.field);
+  } else {
+    req["highlight"] = json!({"fields": {h.field.clone(): {"pre_tag": h.pre, "post_tag": h.post, "fragment_size": h.fsize, "number_of_fragments": h.nfrag}}});
+  }
+  let res = run_search(&cx.reader, &req);
+  let pre_ref: String = char::from_u32(PRE_CP).unwrap().to_string();
+  let post_ref: String = char::from_u32(POST_CP).unwrap().to_string();
+  let mut ref_req = base_request(q, None, limit, "bm25");
+  ref_req["highlight"] = json!({"fields": {h.field.clone(): {"pre_tag": pre_ref, "post_tag": post_ref, "fragment_size": 1_000_000, "number_of_fragments": 1}}});
+  let reference = run_search(&cx.reader, &ref_req);
+  let mut hits = Vec::new();
+  let ok = res.is_ok() && reference.is_ok();
+  let err = match (&res, &reference) {
+    (Err(e), _) => e.clone(),
+    (_, Err(e)) => e.clone(),
+    _ => String::new(),
+  };
+  if let (Ok(a), Ok(b)) = (&res, &reference) {
+    for hit in a.hits.iter().take(6) {
+      let text: String = cx.b.versions.iter().filter(|((id, _), _)| *id == hit.doc_id).map(|(_, d)| d).last()
+        .and_then(|d| d.get(&h.field)).and_then(|v| v.as_str()).unwrap_or("").to_string();
+      let frags: Vec<Vec<u32>> = if h.legacy {
+        hit.snippet.iter().map(|s| marked(s, "**", "**")).collect()
+      } else {
+        hit.highlights.as_ref().and_then(|m| m.get(&h.field)).map(|v| v.iter().map(|s| marked(s, &h.pre, &h.post)).collect()).unwrap_or_default()
+      };
+      let full: Option<Vec<u32>> = b.hits.iter().find(|x| x.doc_id == hit.doc_id)
+        .and_then(|x| x.highlights.as_ref()).and_then(|m| m.get(&h.field)).and_then(|v| v.first()).map(|s| cps(s));
+      hits.push(json!({"id": hit.doc_id, "text": cps(&text), "hasfull": full.is_some(), "full": full.unwrap_or_default(), "frags": frags}));
+    }
+  }
+  let (fsize, nfrag) = if h.legacy { (120, 1) } else { (h.fsize, h.nfrag) };
+  json!({
+    "ev": "search", "check": "highlight", "prop": "C21", "note": note, "field": h.field, "legacy": h.legacy,
+    "fsize": fsize, "nfrag": nfrag, "ok": ok, "err": err, "hits": hits, "obs": {"frags": hits.len()}, "req": req.to_string(),
+  })
+}
+
+fn mode_highlight(r: &mut StdRng, scn: usize, n_req: usize, out: &mut Vec<Value>) -> Result<usize> {
+  let schema = highlight_schema(r);
+  let n_docs = r.gen_range(4..=10);
+  let n_commits = r.gen_range(1..=3);
+  let mut commits: Vec<Vec<Value>> = vec![vec![]; n_commits];
+  for i in 0..n_docs {
+    let long = chance(r, 1, 3);
+    let nb = if long { r.gen_range(10..=22) } else { r.gen_range(1..=8) };
+    let mut d = json!({"_id": format!("u{i:02}"), "ver": i + 1, "body": unicode_text(r, nb)});
+    if chance(r, 2, 3) {
+      let nt = r.gen_range(1..=4);
+      d["title"] = json!(unicode_text(r, nt));
+    }
+    commits[i % n_commits].push(d);
+  }
+  let storage = storage_kind(r);
+  let b = build_literal(schema, &commits, storage)?;
+  let mut cx = open_ctx(b, storage, scn)?;
+  let mut searches = Vec::new();
+  let docs: Vec<Value> = cx.b.versions.values().cloned().collect();
+  for _ in 0..n_req {
+    let field = pick(r, &["body", "body", "body", "title"]).to_string();
+    // query words taken from a stored text of the field
+    let mut words: Vec<String> = Vec::new();
+    for _ in 0..6 {
+      let d = pick(r, &docs);
+      if let Some(t) = d.get(&field).and_then(|v| v.as_str()) {
+        let ws = alnum_words(t);
+        if !ws.is_empty() {
+          words.push(pick(r, &ws).clone());
+          if words.len() >= r.gen_range(1..=2) {
+            break;
+          }
+        }
+      }
+    }
+    if words.is_empty() {
+      words.push("rust".into());
+    }
+    let q = if words.len() == 1 && chance(r, 1, 2) {
+      Q::Term { field: field.clone(), value: words[0].clone(), boost: None }
+    } else {
+      Q::QueryString { terms: words.iter().map(|w| QsTerm { field: Some(field.clone()), word: w.clone() }).collect(), nots: vec![], phrases: vec![], fields: None, boost: None }
+    };
+    let (pre, post) = match r.gen_range(0..4) {
+      0 => ("<em>".to_string(), "</em>".to_string()),
+      1 => ("[[".to_string(), "]]".to_string()),
+      _ => (char::from_u32(PRE_CP).unwrap().to_string(), char::from_u32(POST_CP).unwrap().to_string()),
+    };
+    let h = HlCfg {
+      field,
+      pre,
+      post,
+      fsize: if chance(r, 3, 5) { r.gen_range(0..=40) } else { *pick(r, &[48usize, 60, 80, 120, 160]) },
+      nfrag: *pick(r, &[0usize, 1, 1, 2, 3]),
+      legacy: chance(r, 1, 5),
+    };
+    searches.push(highlight_event(&mut cx, &q, &h, ""));
+  }
+  Ok(finish_scn(out, scn, "highlight", cx, searches))
+}
+
+/// S->I: a case printed by MC_Highlight.tla: w = UTF-8 widths of the characters of a text, the
+/// match covers characters s+1..e, `size` = fragment_size. The match characters are word
+/// characters of the given widths, the others are non-word characters of the given widths.
+fn case_highlight(case: &Value, scn: usize, out: &mut Vec<Value>) -> Result<usize> {
+  let w: Vec<u64> = case["w"].as_array().map(|a| a.iter().filter_map(|x| x.as_u64()).collect()).unwrap_or_default();
+  let s = case["s"].as_u64().unwrap_or(0) as usize;
+  let e = case["e"].as_u64().unwrap_or(0) as usize;
+  let size = case["size"].as_u64().unwrap_or(0) as usize;
+  let word_ch = |k: u64| match k { 1 => 'a', 2 => 'é', 3 => '漢', _ => '\u{20000}' };
+  let fill_ch = |k: u64| match k { 1 => ' ', 2 => '¡', 3 => '、', _ => '😀' };
+  let text: String = w.iter().enumerate().map(|(i, k)| if i >= s && i < e { word_ch(*k) } else { fill_ch(*k) }).collect();
+  let word: String = w.iter().enumerate().filter(|(i, _)| *i >= s && *i < e).map(|(_, k)| word_ch(*k)).collect();
+  let mut k = Knobs::default();
+  k.nested = false;
+  k.analyzers = vec!["default"];
+  let schema = make_schema(&mut rng(0, 0), &k);
+  let commits = vec![vec![json!({"_id": "t1", "ver": 1, "body": text}), json!({"_id": "t2", "ver": 2, "body": "other words"})]];
+  let b = build_literal(schema, &commits, "fs")?;
+  let mut cx = open_ctx(b, "fs", scn)?;
+  let q = Q::Term { field: "body".into(), value: word, boost: None };
+  let h = HlCfg {
+    field: "body".into(),
+    pre: char::from_u32(PRE_CP).unwrap().to_string(),
+    post: char::from_u32(POST_CP).unwrap().to_string(),
+    fsize: size,
+    nfrag: 1,
+    legacy: false,
+  };
+  let ev = highlight_event(&mut cx, &q, &h, &case.to_string());
+  Ok(finish_scn(out, scn, "highlight-case", cx, vec![ev]))
+}
+
 pub fn main(args: &Args) -> Result<()> {
   let mode = args.str("mode", "collapse");
   if mode == "adhoc" {
@@ -477,6 +698,7 @@ pub fn main(args: &Args) -> Result<()> {
       let mut evs = Vec::new();
       total += match mode.as_str() {
         "collapse" => case_collapse(&lines[i], &mut r, scn, &mut evs)?,
+        "highlight" => case_highlight(&lines[i], scn, &mut evs)?,
         other => anyhow::bail!("no case replay for extras mode {other}"),
       };
       scenarios += 1;
@@ -491,6 +713,7 @@ pub fn main(args: &Args) -> Result<()> {
       total += match mode.as_str() {
         "collapse" => mode_collapse(&mut r, scn, n_req, &mut evs)?,
         "rescore" => mode_rescore(&mut r, scn, n_req, &mut evs)?,
+        "highlight" => mode_highlight(&mut r, scn, n_req, &mut evs)?,
         other => anyhow::bail!("unknown extras mode {other}"),
       };
       scenarios += 1;
